@@ -1116,7 +1116,7 @@ package core
 //@   ensures @null isnull ==> isnil(result.0) && isnil(result.1)
 //@   ensures @array !isnull && p != "" && istype(t, ptr_syntax.ArrayType) && isnil(result.1) ==> istype(result.0, core.marshallerArray) && as(result.0, core.marshallerArray) != nil
 //@   loop 1 invariant 0 <= iter && iter <= len(arr) && len(result) == iter && result != nil
-//@   loop 1 invariant forall j :: 0 <= j && j < len(arr) ==> arr[j] == atloop(arr[j])
+//@   loop 1 invariant len(arr) == atloop(len(arr)) && forall j :: 0 <= j && j < len(arr) ==> arr[j] == atloop(arr[j])
 //@   loop 1 invariant iter > 0 ==> result[iter-1] == fn(core.resolvePath, arr[iter-1], p, fn(syntax.TypeLookup.GetArray, lookup, t, -1), dest, lookup).0
 
 // ---------------------------------------------------------------- C03 / C01 one fork per element or key: copy-on-write of shared fork-id parts
